@@ -26,6 +26,7 @@ Routines and classes for creating priors and timeslices for use in tsdate
 
 import logging
 import os
+import tempfile
 from collections import defaultdict, namedtuple
 
 import numpy as np
@@ -264,7 +265,21 @@ class ConditionalCoalescentTimes:
         all_tips = np.arange(2, n + 1)
         prior_lookup_table[1:, 0] = all_tips / n
         prior_lookup_table[1:, 1] = conditional_coalescent_variance(n + 1)[all_tips]
-        np.savetxt(self.get_precalc_cache(n), prior_lookup_table)
+        # Write to a temporary file in the cache directory then atomically move it
+        # into place, so that an interrupted or concurrent write can never leave a
+        # partial table under the name that later runs will read
+        filename = self.get_precalc_cache(n)
+        with tempfile.NamedTemporaryFile(
+            "w", dir=os.path.dirname(filename), suffix=".tmp", delete=False
+        ) as tmp_file:
+            try:
+                np.savetxt(tmp_file, prior_lookup_table)
+                tmp_file.close()
+                os.replace(tmp_file.name, filename)
+            except BaseException:
+                tmp_file.close()
+                os.remove(tmp_file.name)
+                raise
         return prior_lookup_table
 
     def clear_precalculated_priors(self):
